@@ -46,9 +46,11 @@ static const char SPEC_B64_TABLE[2][65] = {
 #define SPEC_B64_SEXTET(x, n, k)                                                                                \
     ((((unsigned)((const uint8_t *)(x))[6 * (size_t)(k) / 8] << 8 | SPEC_B64_BYTE_OR_0(x, n, 6 * (size_t)(k) / 8 + 1)) >> \
       (10 - 6 * (size_t)(k) % 8)) & 63u)
+/* position k carries data iff its 6-bit group starts inside the bit string: 6k < 8n (equivalently k < SPEC_B64_NCHARS(n)) */
+#define SPEC_B64_IS_DATA_POS(n, k) (3 * (size_t)(k) < 4 * (size_t)(n))
 /* character k of the text, k < SPEC_B64_ENC_LEN(n) */
 #define SPEC_B64_ENC_CHAR(url, x, n, k)                                                                         \
-    ((size_t)(k) < SPEC_B64_NCHARS(n) ? SPEC_B64_TABLE[(url) ? 1 : 0][SPEC_B64_SEXTET(x, n, k)] : (char)SPEC_B64_PAD)
+    (SPEC_B64_IS_DATA_POS(n, k) ? SPEC_B64_TABLE[(url) ? 1 : 0][SPEC_B64_SEXTET(x, n, k)] : (char)SPEC_B64_PAD)
 
 /* ---- positional decoder ---- */
 /* m = number of alphabet characters before the first pad / foreign character / end: floor(6m/8) bytes */
